@@ -278,9 +278,33 @@ pub fn gen_history(rng: &mut Rng) -> (Vec<Op>, &'static str) {
                 ATerm { v: 14, fields: vec![CField::App, CField::App], children: vec![t2, fresh_term(rng, false)] }
             };
             if small_fv(&ctx) {
-                let a = push(&mut terms, t);
-                let b = push(&mut terms, ctx);
+                let a = push(&mut terms, t.clone());
+                let b = push(&mut terms, ctx.clone());
                 unions.push((a, b));
+                if rng.chance(1, 2) {
+                    // afterwards the self-referential class changes in place (a slot becomes redundant or a symmetry appears),
+                    // and then its self-loop e-node is needed under the new shape: another class is merged into it and the
+                    // same context around that class has to be found equal
+                    let spare = FREE.iter().copied().find(|c| !fs.contains(c)).unwrap_or(16);
+                    let kk = rng.below(fs.len());
+                    let fs3 = fs.clone();
+                    let t_red = rename_free(&t, &move |c| if c == fs3[kk] { spare } else { c });
+                    let c_red = push(&mut terms, t_red);
+                    unions.push((a, c_red));
+                    let m = ATerm { v: 9, fields: (0..4).map(|i| CField::Slot(fs[i % fs.len()])).collect(), children: vec![] };
+                    let im = push(&mut terms, m.clone());
+                    // the context of the self-reference, now around m
+                    let ctx_m = match &ctx {
+                        ATerm { v, fields, children } if !children.is_empty() => {
+                            let mut ch = children.clone();
+                            ch[0] = rename_free(&m, &rho);
+                            ATerm { v: *v, fields: fields.clone(), children: ch }
+                        }
+                        other => other.clone(),
+                    };
+                    unions.push((im, a));
+                    push(&mut terms, ctx_m);
+                }
             } else {
                 push(&mut terms, t);
             }
